@@ -15,6 +15,7 @@ package main
 import (
 	"bytes"
 	"fmt"
+	"github.com/insomniacslk/dhcp/dhcpv4/nclient4"
 	"net"
 	"strings"
 )
@@ -208,6 +209,45 @@ func oracleC18(r *Rng, n int, thorough bool, seeds []string) *OracleResult {
 			fail(Failure{Oracle: "c18", Input: line, What: what, Class: class})
 		}
 		sample(line)
+	}
+	// a history on ONE connection: the caller keeps one *net.UDPAddr for the peer (and the
+	// one it bound the connection with) and rewrites their octets in place between writes,
+	// as code that walks a list of servers does; every frame is judged against the
+	// addresses as they were when WriteTo was called (seeded change C18-17: a remembered
+	// pseudo-header sum keyed by the caller's slices, uncopied)
+	checkWriteHistory := func(rr *Rng) {
+		srcIP := net.IP{10, 0, byte(rr.Intn(256)), 1}
+		src := &net.UDPAddr{IP: srcIP, Port: 68}
+		peer := &net.UDPAddr{IP: net.IP{10, 0, 0, byte(rr.Range(2, 250))}, Port: 67}
+		sc := &scriptConn{}
+		c := nclient4.NewBroadcastUDPConn(sc, src)
+		line := fmt.Sprintf("rawwr-history src=%s peer=%s", showAddr(src), showAddr(peer))
+		res.Evaluations++
+		res.Tags["write-history-addresses-rewritten-in-place"]++
+		for k := 0; k < 4; k++ {
+			payload := rr.Bytes(rr.Range(1, 40))
+			n0 := len(sc.writes)
+			if _, err := c.WriteTo(payload, peer); err != nil || len(sc.writes) != n0+1 {
+				fail(Failure{Oracle: "c18", Input: line, What: fmt.Sprintf("write %d of a history failed: %v", k+1, err), Class: "C18/write-count"})
+				return
+			}
+			dst := &net.UDPAddr{IP: append(net.IP{}, peer.IP...), Port: peer.Port}
+			bound := &net.UDPAddr{IP: append(net.IP{}, srcIP...), Port: 68}
+			if what, class, _ := verifyWrittenFrame(sc.writes[n0].frame, payload, dst, bound); what != "" {
+				fail(Failure{Oracle: "c18", Input: line, What: fmt.Sprintf("write %d on one connection, after the caller rewrote its address objects in place (peer now %s): %s", k+1, showAddr(dst), what), Class: class})
+				return
+			}
+			switch k {
+			case 0, 2:
+				peer.IP[3] = byte(rr.Range(2, 250))
+				peer.IP[2] ^= 1
+			case 1:
+				peer.Port = rr.Range(1, 65535)
+			}
+		}
+	}
+	for k := 0; k < 8 && n > 0; k++ {
+		checkWriteHistory(NewRng(r.U64()))
 	}
 	checkCW := func(sc *rawCWScenario) {
 		line := rawCWLine(sc)
